@@ -79,7 +79,9 @@ def st_layer(draw):
                "100(tau_W+tau_0)}; nspin 1/2 incl. an empty channel) fed to "
                "the semilocal plan (features and back-propagation), the exponent functions (value and derivatives, zero "
                "derivative below the exponent cutoff), the normaliser list (forward and reverse) and every feature-map class "
-               "on its semilocal inputs: every output finite; non-trivial = a point on each side of a cutoff")
+               "on its semilocal inputs: every output finite; where a spin channel's semilocal features are bit-identical under a rescaling of "
+               "its gradient and tau and its density is below the 1e-10 clamp, the back-propagated potential for gradient and tau is exactly zero; "
+               "non-trivial = a point on each side of a cutoff")
 def layer_extremes(case, ctx):
     from ciderpress.dft import transform_data as T
     from ciderpress.dft.feat_normalizer import FeatNormalizerList, get_normalizer_from_exponent_params
@@ -103,6 +105,26 @@ def layer_extremes(case, ctx):
         vf = rng.normal(size=feat.shape)
         vxc = plan.get_vxc(rd.copy(), vf)
         ctx.finite(vxc, ("sl_vxc", mode))
+        # "no spurious contributions": where the semilocal features do not respond to the gradient and kinetic-energy
+        # density at all (a clamped channel: the value is bit-identical for scaled gradient / tau), the potential
+        # handed back for those inputs is exactly zero there
+        rd2 = rd.copy()
+        rd2[:, 1:4] *= 1.7
+        rd2[:, 4] *= 1.3
+        feat2 = plan.get_feat(rd2.copy())
+        if mode in ("npa", "np") and feat2.shape == feat.shape and np.all(np.isfinite(feat2)):     # the modes with clamped s^2 / alpha
+            frozen = np.all(feat2 == feat, axis=1)            # (nspin, n): every feature of that channel unchanged
+            frozen &= (np.abs(rd[:, 1:4]).sum(1) > 0) | (rd[:, 4] > 0)
+            # only the documented clamp (channel density below ALPHA_TOL = 1e-10): a feature can also be unchanged
+            # because sigma underflows or because alpha sits on its floor, where a non-zero derivative is legitimate
+            frozen &= rd[:, 0] < 1e-10
+            if frozen.any():
+                ctx.event("has_clamped_channel_with_gradient")
+                vg = np.asarray(vxc)
+                ctx.check(vg.shape == rd.shape, ("sl_vxc", "shape", mode), got=list(vg.shape))
+                leak = np.abs(vg[:, 1:5]).max(1)
+                ctx.check(bool(np.all(leak[frozen] == 0)), ("sl_vxc", "spurious_potential_in_clamped_channel", mode),
+                          worst=float(leak[frozen].max()), rho=rd[:, 0][frozen][:4])
         # exponents
         sig = (rd[:, 1:4] ** 2).sum(1)
         for s in range(nspin):
